@@ -94,9 +94,9 @@ PROPS = {
         'assumptions': ['frozen actors only at the three closure-run frames; a suspended future-based operation (queue parked, no thread occupied) is covered by the L2/wake profiles, not by this theorem'],
     },
     'C11': {
-        'correspondence': {'kind': 'pipein', 'profiles': [prof('pipein', (40, 5), (400, 10)), prof('progs:pipein_extra.progs', (0, 10), (0, 60))]},
+        'correspondence': {'kind': 'pipein', 'profiles': [prof('pipein', (40, 5), (400, 10)), prof('progs:pipein_extra.progs', (0, 10), (0, 60)), prof('progs:pipein_slow.progs', (0, 10), (0, 100)), prof('progs:pipe_yield.progs', (0, 10), (0, 100)), prof('progs:pipein_profile_slow.progs', (0, 1), (0, 6))]},
         'coq': ['theories/PipeIn/PropsC11.vo', 'theories/PipeIn/PropsC11_examples.vo', 'theories/Inst/C11_now.vo', 'theories/Inst/Fut_now.vo'],
-        'profiles': [prof('pipein', (80, 20), (1500, 60), extra=['--max-steps', '30000']), prof('progs:pipe_yield.progs', (0, 60), (0, 1500), extra=['--max-steps', '30000'])],
+        'profiles': [prof('pipein', (80, 20), (1500, 60), extra=['--max-steps', '30000']), prof('progs:pipe_yield.progs', (0, 60), (0, 1500), extra=['--max-steps', '30000']), prof('progs:pipein_slow.progs', (0, 30), (0, 600), extra=['--max-steps', '30000']), prof('progs:pipein_profile_slow.progs', (0, 3), (0, 40), extra=['--max-steps', '30000'])],
         'monitors': ['C11', 'C01', 'C05'], 'liveness': True, 'panics': True,
         'trusted_base': ['PipeIn model (coq/theories/PipeIn/Model.v): hand-written, the object abstracted as one-at-a-time FIFO execution (justified by C01/C02), tied by translator facts and the run-time oracles'],
         'assumptions': ['the Desync object is abstracted as ObjExec (exclusive FIFO execution); a processing future that suspends is one step'],
